@@ -139,3 +139,19 @@ PARTIAL_WHEN = {
     "first_falsy": lambda args: bool(args) and not args[0],
     "any_str": lambda args: any(isinstance(a, str) for a in args),
 }
+
+
+def alias_value(a):
+    """Spec aliases are JSON: {"tuple": [...]} stands for a tuple-valued alias (one composite dispatch value)."""
+    if isinstance(a, dict) and set(a) == {"tuple"}:
+        return tuple(alias_value(x) for x in a["tuple"])
+    return a
+
+
+def alias_arg(alias):
+    """What user code passes to overload(...): a list of aliases stays a list, a tuple alias is ONE alias."""
+    return [alias_value(a) for a in alias] if isinstance(alias, list) else alias_value(alias)
+
+
+def alias_list(alias):
+    return [alias_value(a) for a in alias] if isinstance(alias, list) else [alias_value(alias)]
